@@ -24,6 +24,7 @@ struct KeySpec {
     int forge_cert_mode = 0;         // with forge_cert_sig: 0 = one bit of the issuer's signature flipped; 1 = issuer name changed by one character and the signature
                                      // field replaced by the trusted CA certificate's own signature bytes (public data: no key is needed to make such a certificate)
     int ocsp = 0;                    // server: load a stapled OCSP response for the identity (1 = 'good' blob of the P-256 identity, 2 = 'revoked')
+    bool cert_is_ca = false;         // byzantine: the 'identity' certificate is the (public) CA certificate itself, loaded with an unrelated private key
     bool chain = false;              // the identity is sent as a two-element chain: leaf followed by its issuer's certificate
     bool forge_cert_sig = false;     // identity certificate with one bit of the issuer's signature flipped (key still matches): a forged certificate
 };
